@@ -163,6 +163,9 @@ func cmdCheck(args []string) int {
 		pf := todo[qi]
 		fi := prog.Funcs[pf.F]
 		ct := prog.Contracts[pf.F]
+		if ct == nil && fi != nil {
+			ct = contractFor(prog, fi)
+		}
 		if ct == nil || (fi == nil && !ct.Pure) {
 			orphans = append(orphans, pf.F)
 			continue
@@ -345,7 +348,30 @@ func cmdCheck(args []string) int {
 			unsupported = append(unsupported, fr.Key+": "+u)
 		}
 	}
+	// contracts of callees that were applied but whose bodies are not verified by this check
+	verified := map[string]bool{}
+	for _, fr := range results {
+		if !fr.Trusted {
+			verified[fr.Key] = true
+		}
+	}
+	calleeSet := map[string]bool{}
+	for _, fr := range results {
+		for _, c := range fr.Callees {
+			if !verified[c] {
+				calleeSet[c] = true
+			}
+		}
+	}
+	var unverifiedCallees []string
+	for c := range calleeSet {
+		unverifiedCallees = append(unverifiedCallees, c)
+	}
+	sort.Strings(unverifiedCallees)
 	sort.Strings(assumptions)
+	for _, c := range unverifiedCallees {
+		assumptions = append(assumptions, "callee contract applied at a call site but its body is not verified by this check: "+c)
+	}
 	assumptions = append(assumptions,
 		"signed int/int64 arithmetic is treated as mathematical (no overflow obligation); sized unsigned and int8/16/32 arithmetic is exact modulo 2^N",
 		"Go semantics of the supported subset as implemented by rvc (evaluation order, append growth as 'some capacity >= needed', copy as memmove, zero values); allocation never fails other than through the make# obligation",
